@@ -54,8 +54,12 @@ def emit_std(case, ranks, o, model):
         if not isget: kw['vals'] = o['vals']
         if o.get('nel') is not None: kw['nel'] = o['nel']
         return case.op(ranks, 'get' if isget else 'put', **kw)
-    if k == 'wait': return case.op(ranks, 'wait', f=0, kind='ALL', all=o.get('all', 1))
-    if k == 'cancel': return case.op(ranks, 'cancel', f=0, kind='ALL')
+    if k == 'wait':
+        if o.get('slots') is not None: return case.op(ranks, 'wait', f=0, ids=['q%d' % x for x in o['slots']], all=o.get('all', 1))
+        return case.op(ranks, 'wait', f=0, kind='ALL', all=o.get('all', 1))
+    if k == 'cancel':
+        if o.get('slots') is not None: return case.op(ranks, 'cancel', f=0, ids=['q%d' % x for x in o['slots']])
+        return case.op(ranks, 'cancel', f=0, kind='ALL')
     if k == 'fill_var_rec': return case.op(ranks, 'fill_var_rec', f=0, v=o['v'], rec=o['rec'])
     if k == 'buffer_attach': return case.op(ranks, 'buffer_attach', f=0, size=o['size'])
     raise ValueError('emit_std: ' + k)
@@ -101,10 +105,10 @@ class Node:
 
 
 class HistoryBFS:
-    def __init__(self, ck, vx, inits, alphabet, maxdepth, reps=1, np=1, emit=emit_std, extra_judge=None, snap=True, check_nofill=False):
+    def __init__(self, ck, vx, inits, alphabet, maxdepth, reps=1, np=1, emit=emit_std, extra_judge=None, snap=True, check_nofill=False, classify=None):
         """inits: list of (name, setup_fn(case) , model)  — setup_fn emits the ops that bring a fresh file to the initial state"""
         self.ck = ck; self.vx = vx; self.inits = inits; self.alphabet = alphabet; self.maxdepth = maxdepth; self.reps = reps; self.np = np
-        self.emit = emit; self.extra_judge = extra_judge; self.snap = snap
+        self.emit = emit; self.extra_judge = extra_judge; self.snap = snap; self.classify = classify
         self.seen = {}; self.states = 0; self.transitions = 0; self.traces = 0; self.maxd = 0; self.abstract = set()
         self.completed_depth = 0
 
@@ -164,7 +168,8 @@ class HistoryBFS:
                 if len(same_on_all) != 1:
                     self.ck.violation(('rc_differs_across_ranks', o['op'], node.model.mode), text, name + ': rcs %s' % same_on_all); continue
                 if rc not in rcs:
-                    self.ck.violation(('rc', o['op'], '%s%s' % (node.model.mode, '/ro' if node.model.rdonly else '')), text,
+                    cause = self.classify(node, o, r, lo, None, rc, None) if self.classify else None
+                    self.ck.violation(('rc', o['op'], cause or '%s%s' % (node.model.mode, '/ro' if node.model.rdonly else '')), text,
                                       name + ': rc=%d, documented outcome set %s (mode %s, rdonly=%s)' % (rc, sorted(rcs), node.model.mode, node.model.rdonly)); continue
                 newm = staged if (staged is not None and (rc == 0 or o['op'] in ('close', 'abort'))) else node.model
                 if s1 is not None:
@@ -177,7 +182,8 @@ class HistoryBFS:
                             self.ck.violation(('file_changed_by_rejected_call', o['op'], node.model.mode), text, name + ': rc=%d but the file bytes changed' % rc); continue
                     d = cmp_sweep(newm, sw1)
                     if d:
-                        self.ck.violation(('state', o['op'], d.split(':')[0]), text, name + ': after rc=%d %s' % (rc, d)); continue
+                        cause = self.classify(node, o, r, lo, sw1, rc, newm) if self.classify else None
+                        self.ck.violation(('state', o['op'], cause or d.split(':')[0]), text, name + ': after rc=%d %s' % (rc, d)); continue
                     if o['op'] == 'get' and rc == 0:
                         exp = node.model.expected_get(o); got = r.r(0, lo).vals()
                         if D.cmp_lists(exp, got) >= 0:
